@@ -722,8 +722,11 @@ def memo_key(prog: Program) -> RuleResult:
                 )
             else:
                 res.ok(construct, f"key `{short(keyexpr)}` covers every varying parameter")
-    if n == 0:
-        res.ok("package/no-memo-table", "no memo-table idiom in compute/, model/, utils/, render/", nontrivial=False)
+    seen_mods = {f.construct.split(":")[0] for f in res.findings} | {o.construct.split(":")[0] for o in res.obligations}
+    for m in prog.modules.values():
+        key_m = _modkey(m)
+        if key_m.startswith(PURE_SCOPE) and key_m not in seen_mods and m.src.strip():
+            res.ok(f"{key_m}:memo-tables", "no memo-table idiom in this module", nontrivial=False)
     return res
 
 
@@ -1020,8 +1023,11 @@ def none_sentinel_truth(prog: Program) -> RuleResult:
                 res.fail(construct, f"`{name}` comes from `{short(origin.value)}` and is tested by truthiness in `{short(bad[0].test, 50)}`: a falsy element ends the scan as if the iterator were exhausted", mod, bad[0])
             else:
                 res.ok(construct, "compared with `is None`")
-    if n == 0:
-        res.ok("package/no-none-sentinel", "no `next(it, None)` sentinel in compute/, model/, utils/, render/", nontrivial=False)
+    seen_mods = {o.construct.split(":")[0] for o in res.obligations}
+    for m in prog.modules.values():
+        key_m = _modkey(m)
+        if key_m.startswith(PURE_SCOPE) and key_m not in seen_mods and m.src.strip():
+            res.ok(f"{key_m}:none-sentinels", "no `next(it, None)` sentinel in this module", nontrivial=False)
     return res
 
 
@@ -1178,8 +1184,11 @@ def element_update(prog: Program) -> RuleResult:
                 res.fail(construct, f"`{short(node, 70)}` treats the single family `{arg.id}` as a collection: its characters are added one by one", mod, node)
             else:
                 res.ok(construct, "argument is a collection", nontrivial=False)
-    if n == 0:
-        res.ok("package/no-bulk-update-of-a-name", "no set/list bulk update with a plain name as argument in compute/, model/", nontrivial=False)
+    seen_mods = {o.construct.split(":")[0] for o in res.obligations}
+    for m in prog.modules.values():
+        key_m = _modkey(m)
+        if key_m.startswith(("compute.", "model.")) and key_m not in seen_mods and m.src.strip():
+            res.ok(f"{key_m}:bulk-updates", "no set/list bulk update with a plain name as argument in this module", nontrivial=False)
     return res
 
 
